@@ -20,8 +20,8 @@ type stepT struct {
 }
 
 type roundsCase struct {
-	Nodes  []int     `json:"nodes"` // placement list of the object (all container nodes)
-	R      int       `json:"r"`
+	NN     [][]int   `json:"nn"`  // one placement vector per REP rule (the vectors may share nodes)
+	Rep    []int     `json:"rep"` // copies number per rule
 	Holds  []int     `json:"holds"`
 	Orders [][]int   `json:"orders"`
 	Rounds [][]stepT `json:"rounds,omitempty"`
@@ -29,7 +29,21 @@ type roundsCase struct {
 	Src    string    `json:"src"`
 }
 
+// container nodes: every node of any vector, in order of first appearance
+func (c *roundsCase) container() []int {
+	var all []int
+	for _, l := range c.NN {
+		for _, n := range l {
+			if !has(all, n) {
+				all = append(all, n)
+			}
+		}
+	}
+	return all
+}
+
 func (w *world) runRounds(c *roundsCase) {
+	all := c.container()
 	holds := map[int]bool{}
 	for _, h := range c.Holds {
 		holds[h] = true
@@ -42,8 +56,11 @@ func (w *world) runRounds(c *roundsCase) {
 				continue
 			}
 			pc := &polCase{Local: v, InNM: true, Readable: true, Ty: 0, Shards: 1,
-				Net: netT{K: 2, NN: [][]int{append([]int{}, c.Nodes...)}, Rep: []int{c.R}, Ecr: [][2]int{}}}
-			for _, n := range c.Nodes {
+				Net: netT{K: 2, Rep: append([]int{}, c.Rep...), Ecr: [][2]int{}}}
+			for _, l := range c.NN {
+				pc.Net.NN = append(pc.Net.NN, append([]int{}, l...))
+			}
+			for _, n := range all {
 				a := 1
 				if holds[n] {
 					a = 0
@@ -77,12 +94,30 @@ func genRounds(r *rng) *roundsCase {
 	c := &roundsCase{Src: "random"}
 	n := 3 + r.intn(4) // 3-6 nodes
 	ids := []int{1, 2, 3, 4, 5, 6}[:n]
+	var l1 []int
 	for _, i := range r.perm(n) {
-		c.Nodes = append(c.Nodes, ids[i])
+		l1 = append(l1, ids[i])
 	}
-	c.R = 1 + r.intn(3)
-	if c.R > n {
-		c.R = n
+	r1 := 1 + r.intn(3)
+	if r1 > n {
+		r1 = n
+	}
+	c.NN, c.Rep = [][]int{l1}, []int{r1}
+	if r.chance(1, 2) {
+		// a second REP rule over (a part of) the same nodes in another order: the vectors overlap
+		k := n
+		if r.chance(1, 2) {
+			k = 1 + r.intn(n)
+		}
+		var l2 []int
+		for _, i := range r.perm(n)[:k] {
+			l2 = append(l2, ids[i])
+		}
+		r2 := 1 + r.intn(3)
+		if r2 > k {
+			r2 = k
+		}
+		c.NN, c.Rep = append(c.NN, l2), append(c.Rep, r2)
 	}
 	for _, id := range ids {
 		if r.chance(1, 3) {
@@ -92,14 +127,25 @@ func genRounds(r *rng) *roundsCase {
 	if len(c.Holds) == 0 {
 		c.Holds = []int{ids[r.intn(n)]}
 	}
-	for k := 0; k < c.R+2; k++ {
+	c.Orders = randOrders(r, ids, c.Rep)
+	return c
+}
+
+// sum of the copies numbers + 2 rounds, an independent random order of the nodes each
+func randOrders(r *rng, ids []int, rep []int) [][]int {
+	k := 2
+	for _, x := range rep {
+		k += x
+	}
+	var orders [][]int
+	for ; k > 0; k-- {
 		o := []int{}
-		for _, i := range r.perm(n) {
+		for _, i := range r.perm(len(ids)) {
 			o = append(o, ids[i])
 		}
-		c.Orders = append(c.Orders, o)
+		orders = append(orders, o)
 	}
-	return c
+	return orders
 }
 
 func roundsMain() {
@@ -115,11 +161,24 @@ func roundsMain() {
 	if v, err := strconv.Atoi(os.Getenv("VERIF_PLACE_N")); err == nil {
 		n = v
 	}
-	seed := &roundsCase{Src: "seed", Nodes: []int{1, 2, 3, 4}, R: 2, Holds: []int{3, 4},
+	seed := &roundsCase{Src: "seed", NN: [][]int{{1, 2, 3, 4}}, Rep: []int{2}, Holds: []int{3, 4},
 		Orders: [][]int{{1, 2, 3, 4}, {4, 3, 2, 1}, {2, 4, 1, 3}, {1, 2, 3, 4}}}
 	w.runRounds(seed)
 	_ = enc.Encode(seed)
 	r := newRng()
+	// two REP 1 rules over the same three nodes in rotated order (a node that is a backup node of the
+	// first vector is the primary node of the second one), every non-empty initial distribution
+	for hm := 1; hm < 8; hm++ {
+		c := &roundsCase{Src: "seed2", NN: [][]int{{1, 2, 3}, {2, 3, 1}}, Rep: []int{1, 1}}
+		for i := 0; i < 3; i++ {
+			if hm>>i&1 == 1 {
+				c.Holds = append(c.Holds, i+1)
+			}
+		}
+		c.Orders = randOrders(r, []int{1, 2, 3}, c.Rep)
+		w.runRounds(c)
+		_ = enc.Encode(c)
+	}
 	for i := 0; i < n; i++ {
 		c := genRounds(r)
 		w.runRounds(c)
